@@ -77,7 +77,10 @@ class PositionSocket(socket.socket):
         self.recvs += 1
         if self.failpos.get(self.pos, 0) > 0:
             self.failpos[self.pos] -= 1
-            raise TimeoutError("scripted timeout")
+            # "a timeout or OS error": every class of failed receive is the same event for the wrapper
+            kinds = [TimeoutError("scripted timeout"), OSError("scripted os error"), InterruptedError(4, "interrupted"),
+                     ConnectionResetError(104, "reset"), OSError(113, "no route to host")]
+            raise kinds[(self.pos + len(self.data) + self.recvs) % len(kinds)]
         if self.si >= len(self.segs):
             return b""
         n = min(self.segs[self.si], bufsize)
